@@ -348,6 +348,32 @@ def known_owners(crate, fn):
     return owners
 
 
+def find_structs(v, needle, acc=None):
+    """the enum-variant constructions whose path contains `needle`, anywhere inside a value"""
+    from interp import StructV, PhiV, Via, Sel, TupleV, ArrayV, CallV
+    if acc is None:
+        acc = []
+    if isinstance(v, StructV):
+        if v.variant and needle in v.variant:
+            acc.append(v)
+        for x in v.fields.values():
+            find_structs(x, needle, acc)
+    elif isinstance(v, PhiV):
+        for _, x in v.alts:
+            find_structs(x, needle, acc)
+    elif isinstance(v, Via):
+        find_structs(v.inner, needle, acc)
+    elif isinstance(v, Sel):
+        find_structs(v.base, needle, acc)
+    elif isinstance(v, (TupleV, ArrayV)):
+        for x in v.items:
+            find_structs(x, needle, acc)
+    elif isinstance(v, CallV):
+        for x in v.args:
+            find_structs(x, needle, acc)
+    return acc
+
+
 def struct_variants(v, needle, acc=None):
     """short names of the enum-variant constructions whose path contains `needle`, anywhere inside a value"""
     from interp import core, StructV, PhiV, Via, Sel, TupleV, ArrayV, CallV, MutV, IterMapV
